@@ -140,6 +140,9 @@ func main() {
 			writeKeeper(*repo, m, filepath.Join(*genDir, modules[m].typesMod+".v"), filepath.Join(*genDir, modules[m].keeperMod+".v"))
 		}
 		writeKeys(*repo, filepath.Join(*genDir, "GeneratedKeys.v"))
+		for _, m := range []string{"wrkante", "bcnante"} {
+			writeKeeper(*repo, m, "", filepath.Join(*genDir, modules[m].keeperMod+".v"))
+		}
 	}
 	if *fnsOut != "" {
 		writeFns(*repo, *fnsOut)
